@@ -149,6 +149,18 @@ func (f *Frame) staticCall(bi *BInfo, fn *ssa.Function, cl *closureVal, args []T
 	if res, ok := f.syncCall(bi, fn, args, argVals); ok {
 		return res
 	}
+	if res, ok := f.atomicCall(bi, fn, args, argVals); ok {
+		return res
+	}
+	if fo, ok := fn.Object().(*types.Func); ok && g.cs.Pure[funcKey(fo)] {
+		var clean []T
+		for _, a := range args {
+			if a.S != "" {
+				clean = append(clean, a)
+			}
+		}
+		return []T{g.pureApp(fo, clean)}
+	}
 	key := contractKeyOf(fn)
 	fc := g.cs.Funcs[key]
 	if fc == nil && fn.Origin() != nil {
@@ -265,6 +277,15 @@ func (f *Frame) applyContract(bi *BInfo, fn *ssa.Function, fc *FuncContract, arg
 	names := make([]string, len(fn.Params))
 	for i, p := range fn.Params {
 		names[i] = p.Name()
+	}
+	if len(fn.Params) == 0 && fn.Signature != nil {
+		// no body (external function): names come from the signature
+		if r := fn.Signature.Recv(); r != nil {
+			names = append(names, r.Name())
+		}
+		for i := 0; i < fn.Signature.Params().Len(); i++ {
+			names = append(names, fn.Signature.Params().At(i).Name())
+		}
 	}
 	args = args[:min(len(args), len(names))]
 	// free variables of a closure are visible by name: their current content
@@ -442,4 +463,33 @@ func (f *Frame) evalModifies(env *SpecEnv, c Clause) (ents []modEntry, err error
 		}
 	}
 	return ents, nil
+}
+
+// atomicCall: sync/atomic operations on a location.
+func (f *Frame) atomicCall(bi *BInfo, fn *ssa.Function, args []T, argVals []ssa.Value) ([]T, bool) {
+	name := fn.String()
+	if !strings.HasPrefix(name, "sync/atomic.") || len(argVals) == 0 {
+		return nil, false
+	}
+	l := f.addrLoc(argVals[0])
+	if l == nil {
+		return nil, false
+	}
+	g := f.g
+	st := bi.out
+	op := strings.TrimPrefix(name, "sync/atomic.")
+	switch {
+	case strings.HasPrefix(op, "Add"):
+		nv := sAdd(g.load(st, l).S, args[1].S)
+		f.frameCheck(bi, l.arr, l.ref, "atomic add")
+		g.store(st, l, nv)
+		return []T{mk(nv, "Int", l.T)}, true
+	case strings.HasPrefix(op, "Load"):
+		return []T{g.load(st, l)}, true
+	case strings.HasPrefix(op, "Store"):
+		f.frameCheck(bi, l.arr, l.ref, "atomic store")
+		g.store(st, l, args[1].S)
+		return nil, true
+	}
+	return nil, false
 }
